@@ -638,6 +638,26 @@ func (u *Unit) havocGhostIfCalls(s *State, l *Loop) {
 			for k := range u.p.ghostsSetByCall(ci.Common()) {
 				may[k] = true
 			}
+			// ghosts the unit's own set-at-call clauses update at this call
+			if u.fc != nil {
+				if _, isB := ci.Common().Value.(*ssa.Builtin); !isB {
+					nm := calleeName(ci.Common())
+					for _, c := range u.fc.Clauses {
+						if c.Kind != "set-at-call" {
+							continue
+						}
+						want := c.Callee
+						if i := strings.LastIndex(want, "#"); i > 0 {
+							want = want[:i]
+						}
+						if want == nm || want == shortCallee(nm) || strings.HasSuffix(shortCallee(nm), "."+want) {
+							if m := setsNameRe.FindStringSubmatch(strings.TrimSpace(c.Expr)); m != nil {
+								may[m[1]] = true
+							}
+						}
+					}
+				}
+			}
 		}
 	}
 	var keys []string
